@@ -380,6 +380,45 @@ def observe(case):
         _ctx_set(saved)
 
 
+def real_chunks(case, mt):
+    """task keys of the chunks the real MakeTasks + ChunkTasks produce for a fresh construction"""
+    from coba.experiments.process import MakeTasks, ChunkTasks
+    from coba.evaluators import SequentialCB
+    b = build(case)
+    triples = [(b.envs[e], b.lrns[l], b.vals[v] if v >= 0 else SequentialCB()) for e, l, v in b.triples]
+    out = []
+    for chunk in ChunkTasks(mt).filter(MakeTasks(triples).read()):
+        keys = []
+        for t in chunk:
+            if t.env_id is not None and t.lrn_id is not None:
+                keys.append(["I", t.env_id, t.lrn_id, t.val_id, bool(t.copy)])
+            elif t.env_id is not None:
+                keys.append(["E", t.env_id])
+            elif t.lrn_id is not None:
+                keys.append(["L", t.lrn_id])
+            else:
+                keys.append(["V", t.val_id])
+        out.append(keys)
+    return out
+
+
+def model_chunk_keys(chunks):
+    return [[(t[:4] + [t[7]]) if t[0] == "I" else t[:2] for t in ch] for ch in chunks]
+
+
+def chunk_check(case, mt, model_chunks):
+    """the real chunks are a partition of exactly the tasks the model's MakeTasks lists (ids, copy flags), none empty,
+    none longer than maxtasksperchunk — the statement of `chunks_partition_tasks`, evaluated on the code"""
+    real = real_chunks(case, mt)
+    flat_r = sorted(json.dumps(k) for ch in real for k in ch)
+    flat_m = sorted(json.dumps(k) for ch in model_chunk_keys(model_chunks) for k in ch)
+    if flat_r != flat_m:
+        return "tasks in the real chunks %s differ from the model's tasks %s" % (flat_r[:12], flat_m[:12])
+    if any(len(ch) == 0 or (mt > 0 and len(ch) > mt) for ch in real):
+        return "a real chunk is empty or longer than maxtasksperchunk=%d: sizes %s" % (mt, [len(ch) for ch in real])
+    return None
+
+
 def model_view(res):
     """impl Result in the shape the driver answers"""
     ints = []
@@ -846,6 +885,9 @@ class C01(Property):
                     fails.append(F("A", "cfg %s: %d exceptions in the log, the model expects %d" % (run["cfg"], len(markers(o["log"])), len(ans["log"])), "A:log"))
                 if o["lrn_states"] != ans["heap"]:
                     fails.append(F("A", "cfg %s: learner objects after run %s, model %s" % (run["cfg"], o["lrn_states"], ans["heap"]), "A:heap"))
+                d = chunk_check(case, run["cfg"][2], ans["chunks"])
+                if d:
+                    fails.append(F("A", "maxtasksperchunk %d: %s" % (run["cfg"][2], d), "A:chunks"))
         return {"fails": fails, "nontrivial": len(runs) >= 2 and nrows > 0, "tags": tags,
                 "impl": {"base": base if len(json.dumps(base)) < 4000 else "(large)", "rows": nrows}, "model": model}
 
